@@ -77,6 +77,11 @@ pub fn check_picture(pic: &str) -> Result<bool, String> {
     if lazy != out {
         return Err(format!("picture {pic:?}: Formatter::format gives {out:?} but Timestamp::format + write! gives {lazy:?}").chars().take(900).collect());
     }
+    // the one-shot parse wrapper compiles the same picture: whatever it answers for the text,
+    // it must not call the picture itself invalid
+    if let Ok(Err(Error::InvalidFormat(m))) = ad::parse_type(Kind::Ts, "?", pic) {
+        return Err(format!("picture {pic:?} compiles with Formatter::try_new but Timestamp::parse rejects the picture itself: InvalidFormat({m:?})").chars().take(900).collect());
+    }
     let want_text = render(&v, &toks).expect("every token applies to a timestamp");
     match out {
         FmtOut::Text(s) if want_text.matches(&s) => Ok(true),
@@ -255,9 +260,12 @@ pub fn run(ctx: &Ctx) -> (Stats, Report) {
             }
         }
     }
-    // token-count limit: 30..=42 tokens of several shapes
+    // token-count limit: 30..=42 tokens of several shapes, and every documented token repeated
+    // (the longest spellings give the longest pictures that are still within the limit)
     for n in 30..=42usize {
-        for unit in ["-", "DD-", "D ", "T", "YYYY", "HH24:", "/"] {
+        for unit in [
+            "-", "DD-", "D ", "T", "YYYY", "HH24:", "/", "MONTH", "month", "Month ", "MON", "DAY", "day,", "DY", "A.M.", "p.m.", "AM", "HH12", "HH24", "HH", "MI", "SS", "FF", "FF9", "FF1", "DDD", "DD", "MM", "WW", "W", "YYY", "YY", "Y", ":", ".", ",", ";", "\\", " ", "  -",
+        ] {
             let pic: String = unit.repeat(n);
             st.evaluations += 1;
             st.fps.push(hash_bytes(19, pic.as_bytes()));
@@ -371,7 +379,7 @@ pub fn run(ctx: &Ctx) -> (Stats, Report) {
     st.section("random_token_sequences", &mut mark);
 
     let rep = Report {
-        rule: format!("E1: every string of length 0..={maxlen} over the {}-symbol picture alphabet (exhaustive); near-miss spellings alone and embedded; blank runs of every length 1..=700 (alone, between number tokens, and next to name tokens for every month / weekday name); 30..=42 repeated tokens around the 36-token limit. E2: proptest token sequences of 0..=40 tokens (34..=38 over-sampled) with random letter case, blank runs up to 600 and an optional near-miss spelling spliced in. Every rendering goes through both Formatter::format and T::format + write!. Oracle: reference longest-match tokenizer: try_new is Ok iff it accepts (<= 36 tokens), rejection must be Error::InvalidFormat; for accepted pictures the text formatted for the probe 2003-04-09 17:28:56.123456 (every field distinct) must equal the reference rendering of the reference token list (identifies token identity, name case and exact blank-run length); every letter-case pattern of MONTH / MON / DAY / DY / AM / PM / A.M. / P.M. (alone, doubled, embedded) is formatted for 19 probes covering every month name, every weekday name and both meridians. Run under both build profiles. Non-trivial = accepted by the reference, or rejected but one end-deletion away from an accepted picture, or containing a near-miss spelling.", ALPHABET.len()),
+        rule: format!("E1: every string of length 0..={maxlen} over the {}-symbol picture alphabet (exhaustive); near-miss spellings alone and embedded; blank runs of every length 1..=700 (alone, between number tokens, and next to name tokens for every month / weekday name); 30..=42 repetitions of every documented token spelling (and of token + separator pairs) around the 36-token limit. E2: proptest token sequences of 0..=40 tokens (34..=38 over-sampled) with random letter case, blank runs up to 600 and an optional near-miss spelling spliced in. Every rendering goes through both Formatter::format and T::format + write!, and the one-shot Timestamp::parse wrapper must not reject an accepted picture as a format error. Oracle: reference longest-match tokenizer: try_new is Ok iff it accepts (<= 36 tokens), rejection must be Error::InvalidFormat; for accepted pictures the text formatted for the probe 2003-04-09 17:28:56.123456 (every field distinct) must equal the reference rendering of the reference token list (identifies token identity, name case and exact blank-run length); every letter-case pattern of MONTH / MON / DAY / DY / AM / PM / A.M. / P.M. (alone, doubled, embedded) is formatted for 19 probes covering every month name, every weekday name and both meridians. Run under both build profiles. Non-trivial = accepted by the reference, or rejected but one end-deletion away from an accepted picture, or containing a near-miss spelling.", ALPHABET.len()),
         assumptions: vec!["a name token with lower-case first and upper-case second letter, and a mixed-case meridian token, have no style fixed by the statement: compared ignoring case".into()],
         exhaustive: false,
         extra: Default::default(),
